@@ -59,6 +59,7 @@ def model_script(script_text, hl):
     out = []
     modelled = set()
     handle_ok = {}
+    hvirtual = {}
     external = {}     # sid -> True when content was set outside the library since the model last knew it
     for ln, raw in enumerate(script_text.split("\n"), 1):
         t = raw.split()
@@ -74,8 +75,9 @@ def model_script(script_text, hl):
             if ln not in hl or hl[ln][1].get("ok") != "1":
                 continue
             f = hl[ln][1]
-            if len(t) > 8 and t[8] != "v":
+            if len(t) > 8 and t[8] not in "vpdD":
                 continue
+            virtual = len(t) <= 8 or t[8] == "v"
             enc = ENC_OF_SUB.get(int(f["fmt"], 16) & 0xFFFF)
             import formats
             if not formats.is_granular(int(f["fmt"], 16)):
@@ -97,6 +99,7 @@ def model_script(script_text, hl):
             external[sid] = False
             out.append("mopen %d %d %d %d %s %s" % (ln, h, sid, MODE[mode], f["ch"], enc))
             handle_ok[h] = True
+            hvirtual[h] = virtual
             modelled.add(ln)
         elif op == "close":
             h = int(t[1])
@@ -118,8 +121,12 @@ def model_script(script_text, hl):
         elif op == "cmd" and len(t) > 3 and t[2] == "FILE_TRUNCATE":
             h = int(t[1])
             if handle_ok.get(h):
-                # virtual I/O cannot ftruncate: the model is only consulted for the descriptor routes
-                handle_ok[h] = False
+                if hvirtual.get(h, True):
+                    # virtual I/O cannot ftruncate (psf_ftruncate works on the descriptor): not modelled on this route
+                    handle_ok[h] = False
+                else:
+                    out.append("mtrunc %d %d %s" % (ln, h, t[3]))
+                    modelled.add(ln)
     return "\n".join(out) + "\n", modelled
 
 
@@ -146,6 +153,19 @@ def compare(script_text, hl, ml, ignore=()):
     src = script_text.split("\n")
     bad = []
     n = 0
+    # format of the handle each line talks to (for finding keys)
+    import formats
+    hfmt, fam_of = {}, {}
+    for ln in sorted(hl):
+        op, d, raw = hl[ln]
+        t = src[ln - 1].split()
+        if op == "open" and len(t) > 1:
+            if d.get("ok") == "1":
+                hfmt[t[1]] = formats.family(int(d["fmt"], 16))
+            fam_of[ln] = hfmt.get(t[1], "?")
+        elif len(t) > 1:
+            fam_of[ln] = hfmt.get(t[1], "?")
+    compare.family = fam_of
     for ln, md in sorted(ml.items()):
         if ln not in hl:
             bad.append((ln, "<missing>", "", "", src[ln - 1]))
@@ -163,7 +183,7 @@ def compare(script_text, hl, ml, ignore=()):
         for k, v in md.items():
             if k in ignore:
                 continue
-            if k == "cur" and (hd.get(k) or "").startswith("b"):
+            if k == "cur" and (k not in hd or hd[k].startswith("b")):
                 continue        # cursor inside a trailing partial item (pad byte): not an item position
             if k == "tail" and hd.get(k) == "m" and v == "u":
                 continue        # bytes of a trailing partial item landed in the (requested) region beyond the returned items
@@ -199,14 +219,39 @@ def s_tie(ctx, name, script_text, rule, key=None, ignore=(), require_clean=True)
         ops[hl[ln][0]] = ops.get(hl[ln][0], 0) + 1 if ln in hl else 0
     distinct = len(set(script_text.split("\n")[ln - 1] for ln in ml))
     ctx.tie(name, "S", n, distinct, rule + " (distinct = distinct script lines compared with the model)", mismatches=len(bad), ops=ops)
-    if bad:
-        ln, k, a, b, srcl = bad[0]
-        ctx.violation(key + ":mismatch",
-                      "%d of %d script lines of %s disagree with the model; first: line %d field %s impl=%s model=%s [%s]" % (len(bad), n, name, ln, k, a, b, srcl[:120]),
+    groups = {}
+    for b in bad:
+        groups.setdefault("%s:%s" % (compare.family.get(b[0], "?"), b[1]), []).append(b)
+    shown = sorted(groups.items(), key=lambda kv: kv[1][0][0])
+    known_first = [kv for kv in shown if ("%s:mismatch:%s" % (key, kv[0])) in ctx.known]
+    others = [kv for kv in shown if kv not in known_first]
+    if len(others) > 5:
+        ctx.notes.append("%s: %d further mismatch groups not listed as separate violations: %s" % (name, len(others) - 5, ", ".join(g for g, _ in others[5:])))
+    for g, bs in known_first + others[:5]:
+        ln, k, a, b, srcl = bs[0]
+        ctx.violation("%s:mismatch:%s" % (key, g),
+                      "%d of %d script lines of %s disagree with the model (%s); first: line %d field %s impl=%s model=%s [%s]" % (len(bs), n, name, g, ln, k, a, b, srcl[:120]),
                       "correspondence %s\nscript (replay with build/bin/sfdrive.asan <file>):\n%s\n\nmismatches (line field impl model):\n%s" % (
-                          name, minimal_prefix(script_text, bad[0][0]), "\n".join("%d %s impl=%s model=%s | %s" % b for b in bad[:40])))
+                          name, section_prefix(script_text, ln), "\n".join("%d %s impl=%s model=%s | %s" % x for x in bs[:40])))
     return hl, ml, bad
 
 
 def minimal_prefix(script_text, upto):
     return "\n".join(script_text.split("\n")[:upto])
+
+
+def section_prefix(script_text, ln):
+    """lines from the last point where the store of line ln was created (open .. w / store .. clear|hex|copy) up to ln"""
+    src = script_text.split("\n")
+    start = ln - 1
+    depth = 0
+    while start > 0:
+        t = src[start].split()
+        if t and ((t[0] == "open" and len(t) > 3 and t[3] == "w") or (t[0] == "store" and len(t) > 2 and t[2] in ("clear", "hex", "copy"))):
+            break
+        start -= 1
+    # include the lines that prepared a copied store
+    if start > 0 and src[start].startswith("store") and "copy" in src[start]:
+        pre = [l for l in src[:start] if l.split() and l.split()[0] in ("open", "w", "close")][:3]
+        return "\n".join(pre + src[start:ln])
+    return "\n".join(src[start:ln])
